@@ -49,6 +49,27 @@
    what-if constant Mut_NilFailedEvent, whose configuration must violate
    NoPanic - vacuity check of the Consume step).
 
+   The channel lock.  All attempts of one client go through ONE BrokerChannel
+   (WebRTCDialer embeds it; connectLoop retries on it every ReconnectTimeout,
+   every Dial of the Transport and SetNATType share it).  Negotiate takes
+   bc.lock to read natType / BridgeFingerprint and encode the poll request, and
+   must release it ON EVERY EXIT PATH - otherwise the failed attempt itself
+   still looks fine (error returned, event reported) but the NEXT Negotiate
+   parks in bc.lock.Lock() inside Collect, which holds collectLock, and
+   End/Close never return.  The lock is a variable (chanLock), Negotiate is
+   split into lock / encode-under-lock / exchange, every case is run for
+   NAttempts consecutive attempts on the same channel, and LockReleased says
+   that the lock is held only inside the encode step.  fp is the configured
+   bridge fingerprint class ("" / valid 40-hex / invalid: odd length, non-hex,
+   wrong length); the pinned code does not look at it client-side - an
+   invalid one makes the broker refuse the poll (the driver's broker decodes
+   the poll like the real one and answers 400), so such an attempt fails at
+   negotiate with the error reported.  What-if constant Mut_NegotiateLeaksLock:
+   a client-side fingerprint check under the lock that returns without
+   unlocking; its configuration must violate LockReleased (and Terminates).
+   Budget: a case whose data channel never opens is attempted once (each
+   attempt costs DataChannelTimeout), every other case twice.
+
    Deviation constant AsIs_D10: the pinned code calls
    c.pc.LocalDescription() before looking at the error of
    preparePeerConnection; when NewPeerConnection rejected the configuration
@@ -59,22 +80,28 @@
    driver runs the real code on a concretisation of every case. *)
 EXTENDS Integers, Sequences, TLC, Json
 
-CONSTANTS AsIs_D10, Mut_NilFailedEvent
+CONSTANTS AsIs_D10, Mut_NilFailedEvent, Mut_NegotiateLeaksLock
 
 IceClasses    == {"none", "valid", "empty", "garbage", "turn_nocred"}
 BrokerClasses == {"transport_error", "non200", "errjson_noproxy", "errjson_empty", "malformed",
                   "nonstring_type", "nonstring_sdp", "bad_sdp", "good"}
 DCClasses     == {"opens", "never"}
+FpClasses     == {"empty", "valid", "odd", "nonhex", "wronglen"}
 
 IceOK(i) == i \in {"none", "valid"}
-NegotiateOK(b) == b \in {"bad_sdp", "good"}     \* Negotiate returns a session description
+FpOK(f) == f \in {"empty", "valid"}
+NegotiateOK(b, f) == b \in {"bad_sdp", "good"} /\ FpOK(f)   \* Negotiate returns a session description
 RemoteOK(b) == b = "good"                        \* SetRemoteDescription accepts it
 
-VARIABLES ice, broker, dc,       \* the case; "-" = never looked at on this path
+VARIABLES ice, broker, dc, fp,   \* the case; "-" = never looked at on this path
           pc, result, failstep, events,
-          printed                \* number of events the listener has consumed (String() called)
+          printed,               \* number of events the listener has consumed (String() called)
+          chanLock,              \* BrokerChannel.lock: "free" | "held"
+          attempt                \* 1..NAttempts, all on the same BrokerChannel
 
-vars == <<ice, broker, dc, pc, result, failstep, events, printed>>
+vars == <<ice, broker, dc, fp, pc, result, failstep, events, printed, chanLock, attempt>>
+
+NAttempts == IF dc = "never" THEN 1 ELSE 2
 
 (* the listener can print every event except a failure event without error *)
 Printable(e) == e # "failed:nilerr"
@@ -85,8 +112,12 @@ Delivered == printed = Len(events)
 Init ==
   /\ ice \in IceClasses
   /\ broker \in (IF IceOK(ice) THEN BrokerClasses ELSE {"-"})
-  /\ dc \in (IF IceOK(ice) /\ broker = "good" THEN DCClasses ELSE {"-"})
+  /\ fp \in (IF IceOK(ice) THEN FpClasses ELSE {"-"})
+  /\ dc \in (IF IceOK(ice) /\ broker = "good" /\ FpOK(fp) THEN DCClasses ELSE {"-"})
   /\ pc = "prepare" /\ result = "none" /\ failstep = "none" /\ events = <<>> /\ printed = 0
+  /\ chanLock = "free" /\ attempt = 1
+
+UCase == UNCHANGED <<ice, broker, dc, fp, attempt>>
 
 Fail(step, ev) ==
   /\ result' = "err" /\ failstep' = step /\ pc' = "done"
@@ -95,32 +126,49 @@ Fail(step, ev) ==
 Prepare ==
   /\ pc = "prepare" /\ Delivered
   /\ (IF IceOK(ice)
-        THEN pc' = "negotiate" /\ events' = Append(events, "offer:ok") /\ UNCHANGED <<result, failstep>>
+        THEN pc' = "neg_lock" /\ events' = Append(events, "offer:ok") /\ UNCHANGED <<result, failstep>>
         ELSE (IF AsIs_D10
                 THEN result' = "panic" /\ failstep' = "prepare" /\ pc' = "done" /\ events' = events
                 ELSE Fail("prepare", "offer:err")))
-  /\ UNCHANGED <<ice, broker, dc, printed>>
+  /\ UNCHANGED <<printed, chanLock>> /\ UCase
 
-Negotiate ==
-  /\ pc = "negotiate" /\ Delivered
-  /\ (IF NegotiateOK(broker)
+(* Negotiate, part 1: bc.lock.Lock() - parks while the lock is held *)
+NegLock ==
+  /\ pc = "neg_lock" /\ Delivered /\ chanLock = "free"
+  /\ chanLock' = "held" /\ pc' = "neg_enc"
+  /\ UNCHANGED <<result, failstep, events, printed>> /\ UCase
+
+(* part 2: read natType / fingerprint, encode the poll request, Unlock.
+   (Encoding cannot fail for these inputs.)  The what-if variant checks the
+   fingerprint here and leaves through its error exit without unlocking. *)
+NegEncode ==
+  /\ pc = "neg_enc"
+  /\ (IF Mut_NegotiateLeaksLock /\ ~FpOK(fp) /\ fp # "-"
+        THEN Fail("negotiate", "rendezvous:err") /\ chanLock' = chanLock
+        ELSE chanLock' = "free" /\ pc' = "neg_xchg" /\ UNCHANGED <<result, failstep, events>>)
+  /\ UNCHANGED printed /\ UCase
+
+(* part 3: the exchange with the broker and the decoding of its answer *)
+NegExchange ==
+  /\ pc = "neg_xchg"
+  /\ (IF NegotiateOK(broker, fp)
         THEN pc' = "setremote" /\ events' = Append(events, "rendezvous:ok") /\ UNCHANGED <<result, failstep>>
         ELSE Fail("negotiate", "rendezvous:err"))
-  /\ UNCHANGED <<ice, broker, dc, printed>>
+  /\ UNCHANGED <<printed, chanLock>> /\ UCase
 
 SetRemote ==
   /\ pc = "setremote" /\ Delivered
   /\ (IF RemoteOK(broker)
         THEN pc' = "waitopen" /\ UNCHANGED <<result, failstep, events>>
         ELSE Fail("setremote", ""))
-  /\ UNCHANGED <<ice, broker, dc, printed>>
+  /\ UNCHANGED <<printed, chanLock>> /\ UCase
 
 WaitOpen ==
   /\ pc = "waitopen" /\ Delivered
   /\ (IF dc = "opens"
         THEN result' = "peer" /\ pc' = "done" /\ events' = Append(events, "connected") /\ failstep' = failstep
         ELSE Fail("waitopen", IF Mut_NilFailedEvent THEN "failed:nilerr" ELSE "failed"))
-  /\ UNCHANGED <<ice, broker, dc, printed>>
+  /\ UNCHANGED <<printed, chanLock>> /\ UCase
 
 (* the listener consumes the next event: ptEventLogger calls e.String() *)
 Consume ==
@@ -128,24 +176,36 @@ Consume ==
   /\ (IF Printable(events[printed + 1])
         THEN printed' = printed + 1 /\ UNCHANGED <<pc, result, failstep>>
         ELSE result' = "panic" /\ pc' = "done" /\ UNCHANGED <<printed, failstep>>)
-  /\ UNCHANGED <<ice, broker, dc, events>>
+  /\ UNCHANGED <<events, chanLock>> /\ UCase
 
-Next == Prepare \/ Negotiate \/ SetRemote \/ WaitOpen \/ Consume
+(* every path ends, and ends in (peer, nil) or (nil, err) *)
+Finished == pc = "done" /\ (Delivered \/ result = "panic")
+
+(* connectLoop's retry (or another Dial): the next attempt on the same channel *)
+Again ==
+  /\ Finished /\ result # "panic" /\ attempt < NAttempts
+  /\ attempt' = attempt + 1
+  /\ pc' = "prepare" /\ result' = "none" /\ failstep' = "none" /\ events' = <<>> /\ printed' = 0
+  /\ UNCHANGED <<ice, broker, dc, fp, chanLock>>
+
+Next == Prepare \/ NegLock \/ NegEncode \/ NegExchange \/ SetRemote \/ WaitOpen \/ Consume \/ Again
 
 Spec == Init /\ [][Next]_vars /\ WF_vars(Next)
 
 TypeOK ==
-  /\ pc \in {"prepare", "negotiate", "setremote", "waitopen", "done"}
+  /\ pc \in {"prepare", "neg_lock", "neg_enc", "neg_xchg", "setremote", "waitopen", "done"}
   /\ result \in {"none", "peer", "err", "panic"}
+  /\ chanLock \in {"free", "held"} /\ attempt \in 1..2
 
-(* every path ends, and ends in (peer, nil) or (nil, err) *)
-Finished == pc = "done" /\ (Delivered \/ result = "panic")
-Terminates == <>Finished
+AllDone == Finished /\ (attempt = NAttempts \/ result = "panic")
+Terminates == <>AllDone
 NoPanic == result # "panic"
+(* Negotiate releases the channel lock on every exit path *)
+LockReleased == (chanLock = "held") => (pc = "neg_enc")
 Outcome == Finished =>
   /\ result \in {"peer", "err"}
   /\ ((result = "peer") <=> (failstep = "none"))
-  /\ ((result = "peer") <=> (IceOK(ice) /\ broker = "good" /\ dc = "opens"))
+  /\ ((result = "peer") <=> (IceOK(ice) /\ broker = "good" /\ FpOK(fp) /\ dc = "opens"))
 (* the failing step is reported (setRemote: don't-care) *)
 Reported == (Finished /\ result = "err" /\ failstep # "setremote") =>
               events[Len(events)] \in {"offer:err", "rendezvous:err", "failed"}
@@ -153,6 +213,6 @@ Reported == (Finished /\ result = "err" /\ failstep # "setremote") =>
 AllPrintable == \A i \in DOMAIN events : Printable(events[i])
 
 Emit == Finished =>
-  PrintT(ToJson([ice |-> ice, broker |-> broker, dc |-> dc,
+  PrintT(ToJson([ice |-> ice, broker |-> broker, dc |-> dc, fp |-> fp, attempt |-> attempt, attempts |-> NAttempts,
                  expect |-> [result |-> result, failstep |-> failstep, events |-> events]]))
 =============================================================================
